@@ -35,6 +35,9 @@ FIXES = [
  ('C07','truncate_str stops taking text once the width is used up','ansi/mod.rs: a side-by-side row cut in front of a double-width character inside a styled line was one column too wide, showed non-prefix text, and shifted the right panel by one column'),
  ('C19','honour --relative-paths','diff_header.rs: for sections without ---/+++ lines (mode-only, empty added/deleted file) the name from the `diff --git` line was not relativized under --relative-paths; the header showed the repository-relative name and its hyperlink pointed at <cwd>/<repo-relative name>'),
  ('C14','no second file header for a mode-only change','diff_header.rs: in `git log -p` output a mode-only file got a second, bare file header when the next commit\'s first `diff` line arrived'),
+ ('C01','in front of a merge conflict stay in front','merge_conflict.rs: in a combined diff, removed/added lines directly before `++<<<<<<<` were painted after the whole conflict region (moved past it)'),
+ ('C03','submatch offsets do not overflow when tabs','grep.rs: rg --json submatch offset near usize::MAX overflowed when shifted by tab expansion (panic with overflow checks)'),
+ ('C09','multi-line matches in rg --json','grep.rs: a multi-line rg --json match was painted as one line with the newlines inside the styled text: renditions leaked across line ends, later lines lacked path and number (also C16)'),
  ('C18','--version, --help and --show-config exit quietly','main.rs: with a closed stdout / a pager that quit, --version, --help, -h and --show-config exited with status 1 and printed `Error: Os { code: 32, kind: BrokenPipe, .. }`'),
  ('C18','--parse-ansi does not panic','parse_ansi.rs: println! panicked (exit 101) when stdout was closed'),
  ('C18','--generate-completion does not panic','generate_completion.rs: clap_complete panicked (`Failed to write to generated file`, exit 101) when stdout was closed'),
